@@ -1528,6 +1528,10 @@ class AdapterIndex:
         match = adapter.match_to(affix)
         if match is None:
             return None
+        if match.rstop - match.rstart != len(affix):
+            # The re-done alignment covers only part of this affix, so its
+            # errors and score do not describe an affix of this length.
+            return None
         return adapter, match.errors, match.score
 
 
